@@ -86,6 +86,17 @@ func rbHash(c *rbCase) string {
 		h.Write(c.Files[n])
 		h.Write([]byte{0})
 	}
+	outs := make([]string, 0, len(c.Out))
+	for n := range c.Out {
+		outs = append(outs, n)
+	}
+	sort.Strings(outs)
+	for _, n := range outs {
+		io.WriteString(h, "out:"+n)
+		h.Write([]byte{0})
+		h.Write(c.Out[n])
+		h.Write([]byte{0})
+	}
 	io.WriteString(h, strings.Join(c.Args, "\x00"))
 	return hex.EncodeToString(h.Sum(nil)[:8])
 }
@@ -136,6 +147,8 @@ func rbChildMain(args []string) error {
 	}
 	present := map[string]bool{}
 	dirs := map[string]bool{}
+	outDir := filepath.Join(base, "outside") // no .git and no .github/workflows above it: not a project
+	outPresent := map[string]bool{}
 	in := bufio.NewReaderSize(os.Stdin, 1<<20)
 	dec := json.NewDecoder(in)
 	out := bufio.NewWriter(os.Stdout)
@@ -169,8 +182,25 @@ func rbChildMain(args []string) error {
 			}
 			present[rel] = true
 		}
+		for rel := range outPresent {
+			if _, ok := c.Out[rel]; !ok {
+				os.Remove(filepath.Join(outDir, filepath.FromSlash(rel)))
+				delete(outPresent, rel)
+			}
+		}
+		for rel, b := range c.Out {
+			p := filepath.Join(outDir, filepath.FromSlash(rel))
+			if err := os.MkdirAll(filepath.Dir(p), 0o755); err != nil {
+				return err
+			}
+			if err := os.WriteFile(p, b, 0o644); err != nil {
+				return err
+			}
+			outPresent[rel] = true
+		}
 		argv := []string{"actionlint"}
 		for _, a := range c.Args {
+			a = strings.ReplaceAll(a, "{OUT}", outDir)
 			a = strings.ReplaceAll(a, "{ROOT}", root)
 			a = strings.ReplaceAll(a, "{SELF}", self)
 			argv = append(argv, a)
@@ -784,6 +814,9 @@ func init() {
 			src string
 		}
 		mats := parallelMap(vecs, func(v rbVec) mat {
+			if len(v.Multi.Files) > 0 {
+				return mat{c: rbMultiCase(v.ID, v.Fmt, &v.Multi)}
+			}
 			src, err := rbSource(e, &v)
 			if err != nil {
 				return mat{err: err.Error(), src: src}
@@ -895,8 +928,13 @@ func init() {
 			if c == "reusable" && rng.Intn(3) == 0 {
 				mode = "both"
 			}
-			if c == "config" && rng.Intn(3) == 0 {
-				mode = "flag"
+			if c == "config" {
+				switch rng.Intn(3) {
+				case 0:
+					mode = "flag"
+				case 1:
+					mode = "dirty"
+				}
 			}
 			cases[i] = rbCaseOf(i, c, mode, fmts[rng.Intn(len(fmts))], rbMutate(rng, seeds[c]), callers)
 		}
